@@ -211,6 +211,9 @@ fn conversion(p: &Prog) -> String {
     }
 }
 
+/// C19: measure the allocation calls of the evaluating thread across the macro expression
+pub static MEASURE_ALLOC: std::sync::atomic::AtomicBool = std::sync::atomic::AtomicBool::new(false);
+
 /// The source of one case: `fn case_<idx>() -> Out` (sync) or `-> LocalBoxFuture<'static, Out>`.
 pub fn case_fn(p: &Prog, idx: usize) -> String {
     let kind = p.kind();
@@ -235,7 +238,9 @@ pub fn case_fn(p: &Prog, idx: usize) -> String {
         )
     } else {
         format!(
-            "#[allow(unused, non_snake_case)]\nfn case_{idx}() -> Out {{\n    use jvrt::cb::{module}::*;\n    let __res = ::join::{mac}! {{\n        {body}\n    }};\n    {conv}\n}}\n",
+            "#[allow(unused, non_snake_case)]\nfn case_{idx}() -> Out {{\n    use jvrt::cb::{module}::*;\n    {pre}let __res = ::join::{mac}! {{\n        {body}\n    }};\n    {post}{conv}\n}}\n",
+            pre = if MEASURE_ALLOC.load(std::sync::atomic::Ordering::SeqCst) { "let __a0 = jvrt::alloc::count();\n    " } else { "" },
+            post = if MEASURE_ALLOC.load(std::sync::atomic::Ordering::SeqCst) { "jvrt::alloc::report(jvrt::alloc::count() - __a0);\n    " } else { "" },
             idx = idx,
             module = module,
             mac = p.mac,
